@@ -169,16 +169,17 @@
         let ghost ka = self.exceptions.router_key_assertions_spec();
         let ghost odom0 = self.origins@.dom();
         let ghost kdom0 = self.router_keys@.dom();
-//@ loopvar 1 it
 //@ loop 1
             invariant
-                it.iter.obeys_prophetic_iter_laws(),
+                iter_1.obeys_prophetic_iter_laws(), iter_1.decrease() is Some,
                 obeys_key_model::<RouteOrigin>(),
-                it.seq() == oa,
-                0 <= it.index@ <= oa.len(),
-                counters_headroom(metrics, oa.len() - it.index@ + ka.len()),
-                // C09
-                self.origins@.dom() == add_keys(odom0, oa, it.index@),
+                oa == old(self).exceptions.origin_assertions_spec(),
+                ka == old(self).exceptions.router_key_assertions_spec(),
+                iter_1.remaining().len() <= oa.len(),
+                iter_1.remaining() == oa.skip(oa.len() - iter_1.remaining().len()),
+                counters_headroom(metrics, (iter_1.remaining().len() + ka.len()) as int),
+                // C09: SLURM assertions are added unconditionally
+                self.origins@.dom() == add_keys(odom0, oa, oa.len() - iter_1.remaining().len()),
                 self.router_keys@ == old(self).router_keys@,
                 self.aspas@ == old(self).aspas@,
                 self.rejected == old(self).rejected,
@@ -186,24 +187,39 @@
                 self.unsafe_vrps_present == old(self).unsafe_vrps_present,
                 self.refresh == old(self).refresh,
                 self.exceptions == old(self).exceptions,
-//@ loopvar 2 it2
+            ensures
+                iter_1.remaining().len() == 0,
+            decreases iter_1.decrease()->Some_0,
+//@ loopentry 1
+                assert(iter_1.remaining().len() > 0 ==>
+                    iter_1.remaining()[0] == oa[oa.len() - iter_1.remaining().len()]
+                    && iter_1.remaining().skip(1) == oa.skip(oa.len() - iter_1.remaining().len() + 1));
 //@ loop 2
             invariant
-                it2.iter.obeys_prophetic_iter_laws(),
+                iter_2.obeys_prophetic_iter_laws(), iter_2.decrease() is Some,
                 obeys_key_model::<RouterKey>(),
-                it2.seq() == ka,
-                0 <= it2.index@ <= ka.len(),
-                counters_headroom(metrics, ka.len() - it2.index@),
+                oa == old(self).exceptions.origin_assertions_spec(),
+                ka == old(self).exceptions.router_key_assertions_spec(),
+                iter_2.remaining().len() <= ka.len(),
+                iter_2.remaining() == ka.skip(ka.len() - iter_2.remaining().len()),
+                counters_headroom(metrics, iter_2.remaining().len() as int),
                 // C09
                 self.origins@.dom() == add_keys(odom0, oa, oa.len() as int),
-                // C09
-                self.router_keys@.dom() == add_keys(kdom0, ka, it2.index@),
+                // C09: SLURM assertions are added unconditionally
+                self.router_keys@.dom() == add_keys(kdom0, ka, ka.len() - iter_2.remaining().len()),
                 self.aspas@ == old(self).aspas@,
                 self.rejected == old(self).rejected,
                 self.unsafe_vrps == old(self).unsafe_vrps,
                 self.unsafe_vrps_present == old(self).unsafe_vrps_present,
                 self.refresh == old(self).refresh,
                 self.exceptions == old(self).exceptions,
+            ensures
+                iter_2.remaining().len() == 0,
+            decreases iter_2.decrease()->Some_0,
+//@ loopentry 2
+                assert(iter_2.remaining().len() > 0 ==>
+                    iter_2.remaining()[0] == ka[ka.len() - iter_2.remaining().len()]
+                    && iter_2.remaining().skip(1) == ka.skip(ka.len() - iter_2.remaining().len() + 1));
 //@ fn SnapshotBuilder::update_refresh
 //@ spec
     ensures
@@ -382,54 +398,75 @@
 |block: &IpBlock| -> (r: bool) ensures r == !block.is_slash_zero_spec()
 //@ closure 3
 |block: &AsBlock| -> (r: bool) ensures r == !block.is_whole_range_spec()
-//@ loopvar 1 it
+//@ afterinit 1
+            let ghost f1 = iter_1.remaining();
 //@ loop 1
             invariant
-                it.iter.obeys_prophetic_iter_laws(),
+                iter_1.obeys_prophetic_iter_laws(), iter_1.decrease() is Some,
                 forall|x: (bool, IpBlock)| #[trigger] push_allowed(&self.addrs, x) <==> addr_rejectable(cert, x),
-                forall|x: IpBlock| #![trigger it.seq().contains(x)] #![trigger cert.cert_spec().v4_spec().blocks_spec().contains(x)]
-                    it.seq().contains(x)
-                    <==> (cert.cert_spec().v4_spec().blocks_spec().contains(x) && !x.is_slash_zero_spec()),
-                forall|j: int| 0 <= j < it.index@ ==> pushed(&self.addrs, (true, #[trigger] it.seq()[j])),
+                forall|x: IpBlock| #![trigger f1.contains(x)] #![trigger cert.cert_spec().v4_spec().blocks_spec().contains(x)]
+                    f1.contains(x) <==> (cert.cert_spec().v4_spec().blocks_spec().contains(x) && !x.is_slash_zero_spec()),
+                iter_1.remaining().len() <= f1.len(),
+                iter_1.remaining() == f1.skip(f1.len() - iter_1.remaining().len()),
+                forall|j: int| 0 <= j < f1.len() - iter_1.remaining().len() ==> pushed(&self.addrs, (true, #[trigger] f1[j])),
             ensures
+                iter_1.remaining().len() == 0,
                 forall|x: IpBlock| cert.cert_spec().v4_spec().blocks_spec().contains(x) && !x.is_slash_zero_spec()
                     ==> #[trigger] pushed(&self.addrs, (true, x)),
+            decreases iter_1.decrease()->Some_0,
 //@ loopentry 1
-            assert(it.seq().contains(block));
-//@ loopvar 2 it2
+            assert(iter_1.remaining().len() > 0 ==>
+                iter_1.remaining()[0] == f1[f1.len() - iter_1.remaining().len()]
+                && f1.contains(iter_1.remaining()[0])
+                && iter_1.remaining().skip(1) == f1.skip(f1.len() - iter_1.remaining().len() + 1));
+//@ afterinit 2
+            let ghost f2 = iter_2.remaining();
 //@ loop 2
             invariant
-                it2.iter.obeys_prophetic_iter_laws(),
+                iter_2.obeys_prophetic_iter_laws(), iter_2.decrease() is Some,
                 forall|x: (bool, IpBlock)| #[trigger] push_allowed(&self.addrs, x) <==> addr_rejectable(cert, x),
-                forall|x: IpBlock| #![trigger it2.seq().contains(x)] #![trigger cert.cert_spec().v6_spec().blocks_spec().contains(x)]
-                    it2.seq().contains(x)
-                    <==> (cert.cert_spec().v6_spec().blocks_spec().contains(x) && !x.is_slash_zero_spec()),
-                forall|j: int| 0 <= j < it2.index@ ==> pushed(&self.addrs, (false, #[trigger] it2.seq()[j])),
+                forall|x: IpBlock| #![trigger f2.contains(x)] #![trigger cert.cert_spec().v6_spec().blocks_spec().contains(x)]
+                    f2.contains(x) <==> (cert.cert_spec().v6_spec().blocks_spec().contains(x) && !x.is_slash_zero_spec()),
+                iter_2.remaining().len() <= f2.len(),
+                iter_2.remaining() == f2.skip(f2.len() - iter_2.remaining().len()),
+                forall|j: int| 0 <= j < f2.len() - iter_2.remaining().len() ==> pushed(&self.addrs, (false, #[trigger] f2[j])),
                 forall|x: IpBlock| cert.cert_spec().v4_spec().blocks_spec().contains(x) && !x.is_slash_zero_spec()
                     ==> #[trigger] pushed(&self.addrs, (true, x)),
             ensures
+                iter_2.remaining().len() == 0,
                 forall|x: IpBlock| cert.cert_spec().v6_spec().blocks_spec().contains(x) && !x.is_slash_zero_spec()
                     ==> #[trigger] pushed(&self.addrs, (false, x)),
+            decreases iter_2.decrease()->Some_0,
 //@ loopentry 2
-            assert(it2.seq().contains(block));
-//@ loopvar 3 it3
+            assert(iter_2.remaining().len() > 0 ==>
+                iter_2.remaining()[0] == f2[f2.len() - iter_2.remaining().len()]
+                && f2.contains(iter_2.remaining()[0])
+                && iter_2.remaining().skip(1) == f2.skip(f2.len() - iter_2.remaining().len() + 1));
+//@ afterinit 3
+            let ghost f3 = iter_3.remaining();
 //@ loop 3
             invariant
-                it3.iter.obeys_prophetic_iter_laws(),
+                iter_3.obeys_prophetic_iter_laws(), iter_3.decrease() is Some,
                 forall|b: AsBlock| #[trigger] push_allowed(&self.asns, b) <==> as_rejectable(cert, b),
-                forall|x: AsBlock| #![trigger it3.seq().contains(x)] #![trigger cert.cert_spec().asres_spec().as_blocks_spec().contains(x)]
-                    it3.seq().contains(x)
-                    <==> (cert.cert_spec().asres_spec().as_blocks_spec().contains(x) && !x.is_whole_range_spec()),
-                forall|j: int| 0 <= j < it3.index@ ==> pushed(&self.asns, #[trigger] it3.seq()[j]),
+                forall|x: AsBlock| #![trigger f3.contains(x)] #![trigger cert.cert_spec().asres_spec().as_blocks_spec().contains(x)]
+                    f3.contains(x) <==> (cert.cert_spec().asres_spec().as_blocks_spec().contains(x) && !x.is_whole_range_spec()),
+                iter_3.remaining().len() <= f3.len(),
+                iter_3.remaining() == f3.skip(f3.len() - iter_3.remaining().len()),
+                forall|j: int| 0 <= j < f3.len() - iter_3.remaining().len() ==> pushed(&self.asns, #[trigger] f3[j]),
                 forall|x: IpBlock| cert.cert_spec().v4_spec().blocks_spec().contains(x) && !x.is_slash_zero_spec()
                     ==> #[trigger] pushed(&self.addrs, (true, x)),
                 forall|x: IpBlock| cert.cert_spec().v6_spec().blocks_spec().contains(x) && !x.is_slash_zero_spec()
                     ==> #[trigger] pushed(&self.addrs, (false, x)),
             ensures
+                iter_3.remaining().len() == 0,
                 forall|x: AsBlock| cert.cert_spec().asres_spec().as_blocks_spec().contains(x) && !x.is_whole_range_spec()
                     ==> #[trigger] pushed(&self.asns, x),
+            decreases iter_3.decrease()->Some_0,
 //@ loopentry 3
-            assert(it3.seq().contains(block));
+            assert(iter_3.remaining().len() > 0 ==>
+                iter_3.remaining()[0] == f3[f3.len() - iter_3.remaining().len()]
+                && f3.contains(iter_3.remaining()[0])
+                && iter_3.remaining().skip(1) == f3.skip(f3.len() - iter_3.remaining().len() + 1));
 //@ fn RejectedResourcesBuilder::finalize
 //@ spec
     ensures
